@@ -477,7 +477,18 @@ class Controller:
 
     # Packet Sink protocol (packets coming from the host via HCI)
     def on_packet(self, packet: bytes) -> None:
-        self.on_hci_packet(hci.HCI_Packet.from_bytes(packet))
+        try:
+            hci_packet = hci.HCI_Packet.from_bytes(packet)
+        except Exception:
+            logger.exception('!!! error parsing packet from the host')
+            if len(packet) >= 3 and packet[0] == hci.HCI_COMMAND_PACKET:
+                # A command is always answered, even when it can't be parsed
+                self._send_hci_command_status(
+                    hci.HCI_ErrorCode.INVALID_COMMAND_PARAMETERS_ERROR,
+                    int.from_bytes(packet[1:3], 'little'),
+                )
+            return
+        self.on_hci_packet(hci_packet)
 
     def on_hci_packet(self, packet: hci.HCI_Packet) -> None:
         logger.debug(
